@@ -4,6 +4,7 @@ package main
 // parse.Scanner, a structural dump of the compiled prototype (line information excluded).
 
 import (
+	"context"
 	"crypto/sha256"
 	"encoding/hex"
 	"fmt"
@@ -11,6 +12,7 @@ import (
 	"math"
 	"os"
 	"strings"
+	"time"
 
 	lua "github.com/yuin/gopher-lua"
 	"github.com/yuin/gopher-lua/parse"
@@ -23,9 +25,10 @@ const (
 	loadPanic    = 3 // a Go panic escaped LoadString
 	loadCrash    = 4 // the child process died
 	loadHang     = 5 // no answer within the limit
+	loadFileErr  = 6 // *ApiError, Type == ApiErrorFile (only expected from a failing reader)
 )
 
-var loadNames = []string{"function", "syntax-error", "other-error", "panic", "crash", "hang"}
+var loadNames = []string{"function", "syntax-error", "other-error", "panic", "crash", "hang", "file-error"}
 
 type OTok struct {
 	Ty   int `json:"ty"`
@@ -50,6 +53,7 @@ type Result struct {
 	Proto   string  `json:"proto,omitempty"`   // sha256 of the structural dump
 	// parse stage alone: 0 not asked, 1 accepted, 2 rejected (*parse.Error), 3 anything else
 	Unstable   string `json:"unstable,omitempty"` // repeated loads of the same bytes ended differently
+	RunOut     string `json:"runout,omitempty"`   // Run: "ok:<first result>", "error:<msg>", "timeout"
 	ParseStage int    `json:"pstage,omitempty"`
 	ParseMsg   string `json:"pmsg,omitempty"`
 	Micros     int64  `json:"us"`
@@ -282,4 +286,81 @@ func parseStage(src []byte) (st int, msg string) {
 		return parseRejected, trunc(strings.TrimSpace(err.Error()), 160)
 	}
 	return parseBroken, trunc(fmt.Sprintf("%T: %v", err, err), 200)
+}
+
+// loadAndRun loads src and calls the function under a 10 s deadline: "ok:<first result>".
+func loadAndRun(src []byte) (class int, msg string, out string) {
+	defer func() {
+		if r := recover(); r != nil {
+			class, msg = loadPanic, "panic escaped: "+trunc(fmt.Sprint(r), 300)
+		}
+	}()
+	L := lua.NewState()
+	defer L.Close()
+	fn, err := L.LoadString(string(src))
+	if err != nil {
+		if ae, ok := err.(*lua.ApiError); ok && ae.Type == lua.ApiErrorSyntax {
+			return loadSyntax, trunc(strings.TrimSpace(err.Error()), 200), ""
+		}
+		return loadOtherErr, trunc(fmt.Sprintf("%T: %v", err, err), 300), ""
+	}
+	ctx, cancel := context.WithTimeout(context.Background(), 10*time.Second)
+	defer cancel()
+	L.SetContext(ctx)
+	L.Push(fn)
+	if err := L.PCall(0, 1, nil); err != nil {
+		if ctx.Err() != nil {
+			return loadFunction, "", "timeout"
+		}
+		return loadFunction, "", "error:" + trunc(err.Error(), 150)
+	}
+	return loadFunction, "", "ok:" + L.Get(-1).String()
+}
+
+type failingReader struct {
+	b []byte
+	n int
+}
+
+func (r *failingReader) Read(p []byte) (int, error) {
+	if len(r.b) == 0 || r.n <= 0 {
+		return 0, io.ErrUnexpectedEOF
+	}
+	k := len(p)
+	if k > r.n {
+		k = r.n
+	}
+	if k > len(r.b) {
+		k = len(r.b)
+	}
+	copy(p, r.b[:k])
+	r.b, r.n = r.b[k:], r.n-k
+	return k, nil
+}
+
+// loadFailingReader: LState.Load from a reader that delivers failAt bytes and then fails.
+func loadFailingReader(src []byte, failAt int) (class int, msg string) {
+	defer func() {
+		if r := recover(); r != nil {
+			class, msg = loadPanic, "panic escaped Load: "+trunc(fmt.Sprint(r), 300)
+		}
+	}()
+	L := lua.NewState(lua.Options{SkipOpenLibs: true})
+	defer L.Close()
+	fn, err := L.Load(&failingReader{b: src, n: failAt}, "<reader>")
+	if err != nil {
+		if ae, ok := err.(*lua.ApiError); ok {
+			switch ae.Type {
+			case lua.ApiErrorSyntax:
+				return loadSyntax, trunc(strings.TrimSpace(err.Error()), 200)
+			case lua.ApiErrorFile:
+				return loadFileErr, trunc(strings.TrimSpace(err.Error()), 200)
+			}
+		}
+		return loadOtherErr, trunc(fmt.Sprintf("%T: %v", err, err), 300)
+	}
+	if fn == nil {
+		return loadOtherErr, "Load returned neither a function nor an error"
+	}
+	return loadFunction, ""
 }
